@@ -3,7 +3,7 @@
    Part B: the findings (refutation witnesses; the guards are in Wf.v), non-vacuity, why the side conditions are needed.
    Part C: the per-class rules of round 1 (still true, now subsumed by part A). *)
 From Coq Require Import ZArith QArith Qround Bool List.
-Require Import QV.C07.Model QV.C07.Spec QV.C07.Wf QV.C07.ProofsRange QV.C07.ProofsLoop QV.C07.ProofsAtoms
+Require Import QV.C07.Model QV.C07.Spec QV.C07.Wf QV.C07.ProofsRange QV.C07.ProofsLoop QV.C07.ProofsAtoms QV.C07.ProofsSum
                QV.C07.ProofsDur QV.C07.ProofsInt QV.C07.ProofsEnds QV.C07.ProofsIni QV.C07.ProofsFin QV.C07.ProofsPad QV.C07.ProofsWit
                QV.C07.Hist QV.C07.ProofsHist QV.C07.Def QV.C07.ProofsDef QV.C07.Embed QV.C07.ProofsMul
                QV.C07.Disc QV.C07.GenDisc QV.C07.ProofsDisc.
@@ -13,9 +13,12 @@ Open Scope Q_scope.
 (* ================================================== Part A ================================================== *)
 (* `wf p` (Wf.v, executable): channel ids form a set, sequence children define the same channels, coefficient expressions
    do not mention t, time dependent parallel values only over atomic templates, scalar mappings only mention the
-   template's channels, no scalar / template (all enforced by the constructors of the real classes) AND the loop index
-   does not occur in its own range (NOT a constructor check: a restriction of the theorems' domain; such loops are judged
-   by the harness' Python oracle only).  `denote p rho = Some pcs`: the template is instantiable at rho AND inside the
+   template's channels, no scalar / template — all enforced by the constructors of the real classes.  Round 6: the former
+   domain restriction "the loop index does not occur in its own range" is GONE (such a loop is a legal input of the code):
+   Model.loop_sum binds the Sum over a fresh name in that case, as ForLoopPulseTemplate._sum_index does (sympy.Dummy), and
+   the induction needs no side condition on the range (C07_sum_index_fresh, C07_for_closed_form,
+   C07_range_names_index_covered).
+   `denote p rho = Some pcs`: the template is instantiable at rho AND inside the
    specification's domain (Spec.v; excluded besides the negative durations / counts of finding negative-duration-empty:
    a FunctionPT of duration <= 0, atomic parents over an EMPTY operand or over operands of different durations, ranges
    and repetition counts above 4096).  "The instantiated pulse" in every theorem is this denotation; that the REAL
@@ -286,15 +289,52 @@ Proof. exact py_range_last_ceil. Qed.
 Print Assumptions C07_range_last_ceiling.
 
 (* ForLoopPT.integral (and .duration): Piecewise((0, count <= 0), (Sum(body[i -> start + i*step], (i, 0, Max(count,1)-1)), True))
-   evaluates to the sum of the body's values over the Python range — every range shape, unbounded *)
+   evaluates to the sum of the body's values over the Python range — every range shape, unbounded; round 6: no
+   independence hypothesis on start / step any more (the range may mention the loop index's own name) *)
 Theorem C07_integral_partial_for : forall rho i start stop step e a o s ks (f : Z -> Q),
   int_val rho start a -> int_val rho stop o -> int_val rho step s ->
-  indep i start rho -> indep i step rho ->
   py_range a o s = Some ks ->
   body_rule rho i e ks f ->
   ev_eq rho (EIfLe (loop_count start stop step) e0 e0 (loop_sum i start stop step e)) (sumZ f ks).
 Proof. exact for_sum_correct. Qed.
 Print Assumptions C07_integral_partial_for.
+
+(* ROUND 6 — clause "every iteration range", sub-case "the range names its own loop index" (was: outside wf, tested only).
+   The bound symbol of the Sum (ForLoopPulseTemplate._sum_index: the loop index, or a sympy.Dummy when the range's parameter
+   names contain it) is never mentioned by start / step, and is the loop index or a name the summand does not mention —
+   for EVERY loop, so the closed form cannot capture *)
+Theorem C07_sum_index_fresh : forall i start stop step e,
+  fvb (sum_index i start stop step e) start = false /\ fvb (sum_index i start stop step e) step = false /\
+  (sum_index i start stop step e = i \/ fvb (sum_index i start stop step e) e = false).
+Proof. exact sum_index_ok. Qed.
+Print Assumptions C07_sum_index_fresh.
+
+(* the closed form, whenever it evaluates, is the sum of the summand over the Python range with the LOOP INDEX bound to
+   each element — no condition on the range, no condition on the summand (this is the step of C07_duration / C07_integral
+   at a ForLoopPT; before round 6 it needed `fvb i start = false`, `fvb i step = false` from wf) *)
+Theorem C07_for_closed_form : forall rho i start stop step e a o s ks v,
+  as_int (eval rho start) = Some a -> as_int (eval rho stop) = Some o -> as_int (eval rho step) = Some s ->
+  py_range a o s = Some ks ->
+  eval rho (EIfLe (loop_count start stop step) e0 e0 (loop_sum i start stop step e)) = Some v ->
+  exists w, sum_list (fun k => eval (env_upd rho i (Some (inject_Z k))) e) ks = Some w /\ v == w.
+Proof. exact for_closed_form. Qed.
+Print Assumptions C07_for_closed_form.
+
+(* non-vacuity inside the new part of the domain, and why the fresh symbol is needed: ForLoopPT(ConstantPT('1+i', {A: 'i'}),
+   'i', ('i', 'i+2')) at i = 3 is wf, denotes two pieces of total length 9, duration evaluates to 9, integral to 32; the
+   Sum bound over the loop index itself (pre-repair code, 7d773a1) evaluates to 4 *)
+Theorem C07_range_names_index_covered :
+  let p := For 1%N (EV 1%N) (EAdd (EV 1%N) (EC 2)) (EC 1) (Const (EAdd (EC 1) (EV 1%N)) [(1%N, EV 1%N)]) in
+  let rho := env_upd env_empty 1%N (Some 3) in
+  let capturing := ESum 1%N e0 (ESub (EMax (loop_count (EV 1%N) (EAdd (EV 1%N) (EC 2)) (EC 1)) e1) e1)
+                        (ELet [(1%N, EAdd (EV 1%N) (EMul (EV 1%N) (EC 1)))] (EAdd (EC 1) (EV 1%N))) in
+  exists pcs d e x,
+    wf p = true /\ fvb 1%N (EV 1%N) = true /\ denote p rho = Some pcs /\ length pcs = 2%nat /\
+    eval rho (duration_expr p) = Some d /\ d == 9 /\ total pcs == 9 /\
+    dget 1%N (integral_expr p) = Some e /\ eval rho e = Some x /\ x == 32 /\
+    eval rho capturing = Some 4.
+Proof. exact range_names_index_witness. Qed.
+Print Assumptions C07_range_names_index_covered.
 
 (* the specification side of the same rule: integrals add over concatenated pieces *)
 Theorem C07_integral_partial_concat : forall a b c x y, p_int a c = Some x -> p_int b c = Some y ->
